@@ -652,10 +652,17 @@ class FakeSocket(object):
         K.touch(self._fd, 'sendall')
         end = self._end
         rest = bytes(data)
+        t = self._timeout
+        deadline = None if t is None else W.now + _us(t)
         try:
             while rest:
                 if end.write_room() <= 0:
-                    W.block(lambda: end.write_room() > 0, None, 'sendall')
+                    # like the real thing: the socket's own timeout bounds the whole sendall
+                    if t is not None and t == 0:
+                        raise BlockingIOError(errno.EAGAIN, 'Resource temporarily unavailable')
+                    ok = W.block(lambda: end.write_room() > 0, None if deadline is None else max(0, deadline - W.now), 'sendall')
+                    if not ok:
+                        raise _socket.timeout('timed out')
                 n = end.write_now(rest)
                 rest = rest[n:]
         except OSError as e:
